@@ -4,6 +4,7 @@ package main
 
 import (
 	"sort"
+	"strconv"
 	"strings"
 )
 
@@ -72,6 +73,9 @@ func checkC16(c *Check) {
 	wrapperSignRules(c, true, false)
 	for _, f := range fmts {
 		innerSignGates(c, f)
+		if f.name == "JWS" {
+			jwsPayloadIsObject(c, f)
+		}
 		w := findAttrWriter(c, f)
 		if w == "" {
 			c.undecided("O-C16", f.name+" attribute writer", "no function in the signing call tree ranges over ExtendedSignedAttributes", "")
@@ -206,4 +210,67 @@ func localSignerRules(c *Check, rule string) {
 			c.add(rule, "local signer: error means no signer", "a failing NewLocalSigner returns a nil signer", false, c.P.pos(s.Node.Pos))
 		}
 	}
+}
+
+// jwsPayloadIsObject: O-C16.2. The JSON text null decodes into a nil map
+// without an error; a payload that is not a JSON object must not be signed, so
+// after the decode every success path tests the decoded map for nil.
+func jwsPayloadIsObject(c *Check, f format) {
+	sk := c.skeleton(f.method("Sign"))
+	if sk == nil {
+		return
+	}
+	// the graph in which the payload is decoded: Sign itself or the in-module
+	// helper that receives the payload content
+	type cand struct {
+		pg  *PG
+		src string
+	}
+	cands := []cand{{sk, "p0.Payload.Content"}}
+	for _, s := range sk.States {
+		for _, e := range s.Out {
+			for _, l := range e.Labels {
+				if l.Kind != "call" || l.T == nil || !strings.HasPrefix(l.T.Name, "ncg/") {
+					continue
+				}
+				for i, a := range l.T.Args {
+					if a.Key() == "p0.Payload.Content" {
+						if pg := c.pgOf(l.T.Name); pg != nil {
+							cands = append(cands, cand{pg, "p" + strconv.Itoa(i)})
+						}
+					}
+				}
+			}
+		}
+	}
+	n := 0
+	seen := map[string]bool{}
+	for _, cd := range cands {
+		pg := cd.pg
+		for _, s := range pg.States {
+			for _, e := range s.Out {
+				for _, l := range e.Labels {
+					if l.Kind != "call" || l.T == nil || !strings.Contains(l.Key, cd.src) {
+						continue
+					}
+					var dst *Term
+					switch l.T.Name {
+					case "encoding/json.Unmarshal", "(*encoding/json.Decoder).Decode":
+						dst = l.T.Args[1]
+					default:
+						continue
+					}
+					if seen[l.Key] {
+						continue
+					}
+					seen[l.Key] = true
+					n++
+					ok := returnsWhere(pg, func(s *PState) bool { return retNilErr(s, -1) })
+					unless := AnyOf(A("-IsNil(*"+dst.Key()+")"), A("-IsNil("+l.T.Key()+"!1)"), AG("-IsNil(*"+l.T.Key()+"!1)"))
+					c.noPathFrom(pg, "O-C16.2", "JWS: decoded payload is a JSON object (not null)", "after the payload was decoded no success return is reached without testing the decoded map for nil (the JSON text null decodes into a nil map without an error and would be signed)", CallKey(l.Key), ok, &unless)
+				}
+			}
+		}
+	}
+	c.floor("JWS payload decode calls on the signing path", 1, n)
 }
